@@ -58,6 +58,8 @@ def tasks_for(prop, tier):
             for v in VARIANTS:
                 ts.append(("c13", "acc", K, m, v))
         ts.append(("c13", "acc", K, "bin_entries", "xvalues"))
+    for m in ("bin_entries", "bin_labels", "bin_centers", "n_bins", "mpv", "bin_entries:labels"):
+        ts.append(("c13", "acc", "Categorize", m, "full"))
     return ts
 
 
@@ -82,7 +84,7 @@ def run_task(P, task, prop, tier, out):
     if kind == "lemma":
         return {"Bin": lemma_bin, "SparselyBin": lemma_sparse, "CentrallyBin": lemma_central, "IrregularlyBin": lemma_irr}[K](P, prop, tier, out)
     if kind == "acc":
-        return {"Bin": acc_bin, "SparselyBin": acc_sparse, "CentrallyBin": acc_central, "IrregularlyBin": acc_irr}[K](P, task[3], task[4], prop, tier, out)
+        return {"Bin": acc_bin, "SparselyBin": acc_sparse, "CentrallyBin": acc_central, "IrregularlyBin": acc_irr, "Categorize": acc_cat}[K](P, task[3], task[4], prop, tier, out)
     raise ValueError(task)
 
 
@@ -1114,3 +1116,86 @@ def lemma_irr(P, prop, tier, out):
         if hi is not None:
             g = z3.And(C.e_up(st, hidx).lt(hi), hi.le(C.e_up(st, hidx + 1)))
             prove(out, prop, fn, "lemma:last-bin-reaches-high", variant, variant, st, g, tier, extra_index=ex)
+
+
+# ------------------------------------------------------------------------------------------------ Categorize
+
+
+def acc_cat(P, meth, variant, prop, tier, out):
+    """Categorize: labels, entries and mpv agree with the bins.  The arrays are in the dict's enumeration order
+    (the same dict in the same state enumerates in the same order: labels[j] and entries[j] belong together)."""
+    from .builtins_model import VKey, denum
+
+    name, _, form = meth.partition(":")
+    fi = P.lookup_method("Categorize", name)
+    st = State()
+    selfv = schema.make_instance(st, "Categorize", 1, opts={"catkeys": "str"})
+    o = st.obj(selfv)
+    bins = o.fields["bins"]
+    d = st.obj(bins)
+    n = d.length()
+    did = z3.IntVal(d.did)
+    INPUTS.clear()
+    X = Exec(P, models.std_hooks())
+    args = [selfv]
+    lab = None
+    if form == "labels":
+        lab = z3.Const("q.label", core.StrS)
+        args.append(st.alloc(CList([core.VStr(lab)]), new=False))
+    if name == "mpv":
+        st.add(n > 0)  # mpv of an unfilled Categorize is max() of an empty sequence
+    pre = st.fork()
+    cover(out, prop, fi.qualname, "cover:query-satisfiable", variant, variant, st, tier, extra=[n >= 2])
+    try:
+        res = X.run(st, fi, args)
+    except Unsupported as e:
+        out["out_of_reach"].append({"function": fi.qualname, "reason": f"[{meth}] {e}"})
+        return
+    add_function(out, fi, meth, paths=len(res))
+
+    def E_at(s, k):
+        return core.E(s.view(s.obj(bins).val(k).ref))
+
+    for i, r in enumerate(res):
+        p = f"{meth}:p{i}"
+        if r.exc is not None:
+            prove(out, prop, fi.qualname, "ensures:no-raise", p + ":" + r.exc.cls, variant, r.st, z3.BoolVal(False), tier)
+            continue
+
+        def goal(s2, r=r):
+            j = sk("cat")
+            s2.add_index(j)
+            if name == "n_bins":
+                return (r.v.t == n) if isinstance(r.v, VInt) else z3.BoolVal(False)
+            if name == "mpv":
+                if not isinstance(r.v, VKey):
+                    return z3.BoolVal(False)
+                k = z3.Const("sk.key", core.Key)
+                s2.add_index(k)
+                return z3.And(d.present(r.v.t), z3.Implies(d.present(k), E_at(s2, k) <= E_at(s2, r.v.t)))
+            if not NP.is_arr(s2, r.v):
+                return z3.BoolVal(False)
+            a = s2.heap[r.v.oid]
+            e = a.elem(j)
+            if form == "labels":
+                kk = core.KStr(lab)
+                e0 = X.B.num(a.elem(z3.IntVal(0)))
+                want = Fl.ite(d.present(kk), Fl.fin(E_at(s2, kk)), Fl.const(0.0))
+                return z3.And(a.length == 1, e0.same(want)) if e0 is not None else z3.BoolVal(False)
+            inr = z3.And(j >= 0, j < n)
+            if name == "bin_entries":
+                f = X.B.num(e)
+                return z3.And(a.length == n, z3.Implies(inr, f.same(Fl.fin(E_at(s2, denum(did, j)))))) if f is not None else z3.BoolVal(False)
+            if name in ("bin_labels", "bin_centers"):
+                return z3.And(a.length == n, z3.Implies(inr, e.t == denum(did, j))) if isinstance(e, VKey) else z3.BoolVal(False)
+            return z3.BoolVal(False)
+
+        clause = {
+            "n_bins": "ensures:number-of-bins",
+            "mpv": "ensures:label-of-a-fullest-bin",
+            "bin_entries": "ensures:entries-in-enumeration-order" if not form else "ensures:entries-of-the-requested-labels",
+            "bin_labels": "ensures:labels-in-enumeration-order",
+            "bin_centers": "ensures:labels-in-enumeration-order",
+        }[name]
+        prove(out, prop, fi.qualname, clause, p, variant, r.st, goal, tier)
+        prove(out, prop, fi.qualname, "ensures:frame", p, variant, r.st, lambda s2: frame_same(s2, pre, selfv), tier)
